@@ -69,11 +69,13 @@ META = {
              "inversion lemmas for xor, aes and through KeyFile. SecureField's shape checks are bounded.",
              "AES/PKCS7 primitive laws assumed; distinctness of random draws and 'another key never decrypts' are probabilistic/cryptographic and only stated",
              "loop invariant + lemmas over contracts", externals=["cryptography", "os.urandom", "base64", "str.encode"]),
-    "C09": M("other",
-             "Bounded only so far: DigestValue.create/challenge/parse and ChallengeField under run-time contracts for all six algorithms (fresh salt of digest size, "
-             "digest == H(salt+p), accepts p, rejects q, survives save/load in 5 formats, hand-written plaintext hashed on load).",
-             "hashlib is external; collision freedom is assumed for 'rejects every other secret'",
-             "bounded run-time contract checking"),
+    "C09": M("proof",
+             "DigestValue.create / challenge and ChallengeField._hash / _validate verified for all inputs and all six algorithms (the algorithm is a symbolic member of the "
+             "table): random salt of the digest's length from a fresh draw, digest == H(salt + secret), the value holds only salt/digest/algorithm, challenge raises ValueError "
+             "iff the hash differs; lemmas: the secret is accepted, another secret is rejected (under the stated collision-freedom instance), two assignments use two draws. "
+             "to_basic/to_python (save/load survival, hand-written plaintext) and the absence of the plaintext from serialised output are decided by the bounded driver.",
+             "hashlib contract assumed (hash_of uninterpreted, digest_size > 0); collision freedom assumed only in the rejects-another-secret lemma; distinct draws are probabilistic",
+             "contracts over the hash primitive + ghost clients", externals=["hashlib", "os.urandom", "base64", "str.encode"]),
     "C10": M("proof",
              "For all configurations, masks and depths of nested sub-configurations: Config.to_tree replaces every truthy sensitive value by the mask (one-character masks "
              "repeated to len(str(v))), renders falsy ones as None, passes the same mask to every nested configuration, and without a mask leaves each field's encoding unaltered "
